@@ -92,7 +92,12 @@ def run_case(case):
         for c, p in enumerate(case["par"]):
             if c == 0:
                 continue
-            classes.append(type(Root)(f"C{c}", (classes[p],), {}))
+            meta = type(classes[p])
+            if c in case.get("meta", ()):
+                # a style subclass may need a metaclass DERIVED from the style's metaclass (to mix
+                # in another metaclass'd base, a registry, ...): the settings must behave the same
+                meta = type(f"M{c}", (meta,), {})
+            classes.append(meta(f"C{c}", (classes[p],), {}))
         insts = [classes[c](IMG, width=2, height=2) for c in case["icls"]]
         settings = SETTINGS[root]
 
